@@ -105,3 +105,19 @@ func sexprEnd(s string, i int) int {
 	}
 	return len(s)
 }
+
+// mentionsOld: does the clause use old(...)?
+func mentionsOld(e *E) bool {
+	if e == nil {
+		return false
+	}
+	if e.Op == "call" && len(e.Args) >= 1 && e.Args[0].Op == "id" && e.Args[0].Name == "old" {
+		return true
+	}
+	for _, a := range e.Args {
+		if mentionsOld(a) {
+			return true
+		}
+	}
+	return false
+}
